@@ -46,10 +46,10 @@ def gen_cases(tier, seed):
 same_trial = work.same_trial
 
 
-def solve(case, limit=None, clock=None):
+def solve(case, limit=None, clock=None, time_limit=None):
     cfgd = dict(case["cfg"])
     cfgd["iteration_limit"] = CAP if limit is None else limit
-    cfgd["time_limit"] = TIME_LIMIT
+    cfgd["time_limit"] = TIME_LIMIT if time_limit is None else time_limit
     p = work.prepare(dict(case, cfg=cfgd), record_sites=False, keep_args=False)
     clock = clock or mon.VirtualClock(time_limit=TIME_LIMIT, display_bits=[0])
     out = mon.run_solve(p.rec, p.params, p.x0, p.y0, clock=clock)
@@ -148,9 +148,18 @@ def run_case(case):
             bad("limit-accepted", "iteration_limit=%d: num_accepted_steps=%d, expected %d" % (k, r.num_accepted_steps, acc))
         nt += 1
     # ---------------- deadline positions
-    for j in range(0, nreads + 1):
-        clock = mon.VirtualClock(expire_at=j, time_limit=TIME_LIMIT, display_bits=[0])
-        p, out, clock = solve(case, clock=clock)
+    # the same deadlines expressed through the value of time_limit on a clock that advances 0.5 s per read (exact arithmetic):
+    # time_limit = 0.5 j expires at read j; j = 0 is a time limit of exactly 0.0 (budget used up before the start)
+    ramp_js = sorted(set([0, 1, 2, 5, nreads // 2]) & set(range(nreads)))
+    for j, ramp in [(j, False) for j in range(0, nreads + 1)] + [(j, True) for j in ramp_js]:
+        if ramp:
+            clock = mon.VirtualClock(time_limit=0.5 * j, display_bits=[0], ramp=0.5)
+            p, out, clock = solve(case, clock=clock, time_limit=0.5 * j)
+            bump("deadlines_by_time_limit_value")
+            bump("time_limit_zero_runs", int(j == 0))
+        else:
+            clock = mon.VirtualClock(expire_at=j, time_limit=TIME_LIMIT, display_bits=[0])
+            p, out, clock = solve(case, clock=clock)
         evals += 1
         bump("deadline_positions_enumerated")
         if out.result is None:
@@ -220,10 +229,11 @@ def finalize(agg, tier):
                 "Exact, Newton type, penalty policy with 30%% extra weight on the vetoing filters, step solver, scaling, "
                 "collect_path), reference length capped at %d steps; for every base run every iteration budget "
                 "k=0..len+1 and every deadline position j=0..#reads (each read of the deadline clock, including those "
-                "inside the Newton loop of the exact controller) is executed; every (base run, k) and (base run, j) is "
+                "inside the Newton loop of the exact controller) is executed, a few of the deadlines (reads 0, 1, 2, 5, middle) additionally through the value of time_limit itself (0.5 j on a clock advancing 0.5 s per read; j = 0 is time_limit = 0.0); every (base run, k) and (base run, j) is "
                 "distinct by construction and counted as non-trivial when all comparisons were carried out" % CAP,
         "floors": {"base_runs": 20, "iteration_budgets_enumerated": 300, "deadline_positions_enumerated": 500,
-                   "deadline_inside_newton_loop": 100, "aborted_steps_observed": 50, "natural_endings_checked": 10},
+                   "deadline_inside_newton_loop": 100, "aborted_steps_observed": 50, "natural_endings_checked": 10,
+                   "deadlines_by_time_limit_value": 100, "time_limit_zero_runs": 20},
         "exhaustive": True,
         "assumptions": ["the deadline is driven by a virtual clock substituted for time.time inside pygradflow.timer; "
                         "display is off so that the display timer does not interleave reads",
